@@ -16,7 +16,12 @@ def value(ty, k):
         return {"f32": 0x3f800000 + (k % 120) * 0x00010000}
     if ty == "LREAL":
         return {"f64": 0x3ff0000000000000 + (k % 120) * 0x0000100000000000}
-    return k % 120 + 1
+    v = k % 120 + 1
+    if ty in ("USINT", "UINT", "UDINT", "ULINT") and k % 2:
+        return v | (1 << (8 * lc.SIZES[ty] - 1))      # upper half of the unsigned range
+    if ty in ("SINT", "INT", "DINT", "LINT") and k % 2:
+        return -v
+    return v
 
 
 def compositions(n):
@@ -51,6 +56,8 @@ class C04(Suite):
                     k += 1
                     ty = tys[k % len(tys)]
                     plan = [{"kind": "read", "idx": i, "n": n} for i in range(L) for n in range(1, L - i + 1)]
+                    # the in-process API lets the count be left out ("the rest of the tag from index i")
+                    plan += [{"kind": "read", "idx": i, "n": L - i, "elide": True} for i in range(L)]
                     yield {"budget": B, "tags": [{"name": "T", "type": ty, "len": L, "addr": None}], "plan": plan}
         # write tilings: all compositions of n <= 6 (quick: <= 4)
         nmax = 4 if tier == "quick" else 6
@@ -88,7 +95,7 @@ class C04(Suite):
             def do(r):
                 reqs.append(r)
                 rep = dev.request(r)
-                outs.append(rep + "@" + dev.dump())
+                outs.append(rep + "@" + dev.dump(class_level=True))
                 return rep
 
             code = lc.TYPES[ty]
@@ -100,7 +107,10 @@ class C04(Suite):
                     off, guard = 0, 0
                     while guard < 4 * L + 8:
                         guard += 1
-                        rep = do({"op": "rf", "path": [["s", "T"], ["e", t["idx"]]], "n": t["n"], "off": off})
+                        r = {"op": "rf", "path": [["s", "T"], ["e", t["idx"]]], "n": t["n"], "off": off}
+                        if t.get("elide"):
+                            r.update(direct=True, elide_n=True)
+                        rep = do(r)
                         p = lg.parse_reply(bytes.fromhex(rep)) if rep not in ("X", "-") else None
                         if not p or p["status"] != 6:
                             break
